@@ -5,7 +5,10 @@
      - BOOL#TRUE / BOOL#FALSE for boolean constants, decimal digits for integers, a string between the quote its text does
        not contain; a negative integer constant is written '-', blank, digits (the recorded rendering gap);
      - calls  name ( p , n := e , NOT n => v ) ;  statements end in ' ;' and a line break; IF / ELSIF / ELSE / END_IF,
-       FOR .. := .. TO .. [BY ..] DO .. END_FOR, WHILE .. DO .. END_WHILE, REPEAT .. UNTIL .. END_REPEAT as in the source.
+       FOR .. := .. TO .. [BY ..] DO .. END_FOR, WHILE .. DO .. END_WHILE, REPEAT .. UNTIL .. END_REPEAT as in the source;
+     - CASE e OF, then per group the selectors  s1 , s2 :  and the statements (a group without statements is written
+       (* empty *) ;), ELSE only before a non-empty list, END_CASE; a selector is digits,  lo.. hi  or a name, and a negative
+       bound is written '-', blank, digits (the same recorded gap: signed_integer admits no blank).
    write_ws puts one blank (or the indentation after a line break) before every token: every gap here is one
    whitespace token, except inside BOOL#TRUE; the gap after an expression that ends in an identifier belongs to the
    identifier (the parser's identifier rule reads it).  Executable; no proofs in this file. *)
@@ -40,6 +43,9 @@ Definition dot_t := tkk KPeriod [46%N].
 Definition lb_t := tkk KLeftBracket [91%N].
 Definition rb_t := tkk KRightBracket [93%N].
 Definition semi_t := tkk KSemicolon [59%N].
+Definition colon_t := tkk KColon [58%N].
+Definition range_t := tkk KRange [46%N; 46%N].
+Definition empty_comment := tkk KComment (txt_of [40; 42; 32; 101; 109; 112; 116; 121; 32; 42; 41]).      (* the text (* empty *) *)
 Definition assign_t := tkk KAssignment [58%N; 61%N].
 Definition arrow_t := tkk KRightArrow [61%N; 62%N].
 Definition minus_t := tkk KMinus [45%N].
@@ -204,6 +210,36 @@ Fixpoint last_gap (l : list (sexpr * list stmt)) : list token :=
   | _ :: l' => last_gap l'
   end.
 
+(* CASE selectors *)
+Definition sint_sp (neg : bool) (v : N) : sint token :=
+  if neg then SiMinus token minus_t ws1 (int_tok v) else SiPlain token (int_tok v).
+Definition csel_sp (x : csel) : ssel token :=
+  match x with
+  | CsInt n v => SelInt token (sint_sp n v)
+  | CsRange n1 v1 n2 v2 => SelRange token (sint_sp n1 v1) [] range_t (if n2 then [] else ws1) (sint_sp n2 v2)
+  | CsEnum n => SelEnum token (id_tok n)
+  end.
+(* write_ws puts a blank before digits and names; '-' is written without *)
+Definition csel_neg (x : csel) : bool := match x with CsInt n _ => n | CsRange n1 _ _ _ => n1 | CsEnum _ => false end.
+Definition sel_lead (x : csel) : list token := if csel_neg x then [] else ws1.
+Definition msels_sp (l : list csel) : list (smsel token) := map (fun x => MSel token ws1 comma_t (sel_lead x) (csel_sp x)) l.
+(* the groups of a CASE; a group without selectors (no text gives one) is written with an empty name *)
+Definition cs_sp (f : stmt -> rss) : list token -> list (list csel * list stmt) -> scases token :=
+  fix go (lead : list token) (l : list (list csel * list stmt)) : scases token :=
+    match l with
+    | [] => CaNil token
+    | (ss, b) :: l' =>
+        let x := match ss with [] => CsEnum [] | x :: _ => x end in
+        CaCons token lead (csel_sp x) (msels_sp (tl ss)) ws1 colon_t
+          (match b with [] => nl1 ++ empty_comment :: ws1 | _ :: _ => nl1 end) (body_sp f b) (go (tail_gap b) l')
+    end.
+Fixpoint last_gap_cs (l : list (list csel * list stmt)) : list token :=
+  match l with
+  | [] => nl1
+  | (_, b) :: [] => tail_gap b
+  | _ :: l' => last_gap_cs l'
+  end.
+
 (* statements *)
 Fixpoint ss_of (s : stmt) : rss :=
   match s with
@@ -218,6 +254,11 @@ Fixpoint ss_of (s : stmt) : rss :=
         (eis_sp ss_of nl1 eis)
         (match els with [] => ENone token | x :: l' => ESome token (last_gap eis) (kwt KElse) nl1 (list_sp ss_of x l') end)
         (match els with [] => last_gap eis | _ :: _ => nl1 end) (kwt KEndIf)
+  | TCase c gs els =>
+      let sc := sp_of c in
+      SsCase token (kwt KCase) ws1 sc (gap sc) (kwt KOf) (cs_sp ss_of nl1 gs)
+        (match els with [] => ENone token | x :: l' => ESome token (last_gap_cs gs) (kwt KElse) nl1 (list_sp ss_of x l') end)
+        (match els with [] => last_gap_cs gs | _ :: _ => nl1 end) (kwt KEndCase)
   | TFor v e1 e2 st body =>
       let s1 := sp_of e1 in let s2 := sp_of e2 in
       SsFor token (kwt KFor) ws1 (id_tok v) ws1 assign_t ws1 s1 (gap s1) (kwt KTo) ws1 s2 (gap s2)
@@ -236,18 +277,3 @@ Fixpoint ss_of (s : stmt) : rss :=
 (* what the renderer writes for a statement list *)
 Definition render_list (l : list stmt) : list token :=
   match l with [] => [] | x :: l' => flat_l token (list_sp ss_of x l') end.
-
-(* no loop or ELSIF body is empty (there the renderer writes an empty statement, which this model does not spell) *)
-Fixpoint bodies_ok (s : stmt) : bool :=
-  let all := fix all (l : list stmt) : bool := match l with [] => true | x :: r => bodies_ok x && all r end in
-  let ne := fun (l : list stmt) => match l with [] => false | _ :: _ => true end in
-  match s with
-  | TIf _ body eis els =>
-      all body &&
-      (fix go (l : list (sexpr * list stmt)) : bool :=
-         match l with [] => true | (_, b) :: r => ne b && all b && go r end) eis &&
-      all els
-  | TFor _ _ _ _ body | TWhile _ body | TRepeat body _ => ne body && all body
-  | _ => true
-  end.
-Definition list_bodies_ok (l : list stmt) : bool := forallb bodies_ok l.
